@@ -14,6 +14,7 @@ Query strings, form bodies and JSON are decoded by urllib / json, not ioflo.
 """
 import json
 import random
+import socket
 import time
 from urllib.parse import parse_qsl
 
@@ -151,10 +152,13 @@ def check_response(ctx, spec, method, resp, wit):
        {"got": bytes(resp["body"])})
 
 
-def one_case(ctx, rng, idx, mem, deadline):
+def one_case(ctx, rng, idx, mem, deadline, reconnect=False):
     """one connection: 1 request (mostly) or 2-3 requests one after the other through the same Patron (each with its own
     payload kind, so that nothing of an earlier request may survive in the client's requester or the server's requestant)"""
     nreq = rng.choice([1, 1, 1, 2, 2, 3])
+    if reconnect:
+        nreq = rng.choice([2, 3, 3])       # the first request asks to close; the patron reconnects and streams come next
+    after_reconnect = False
     cur = {}
     seen = []
     app = hg.make_app(lambda environ: cur["spec"], seen)
@@ -174,6 +178,7 @@ def one_case(ctx, rng, idx, mem, deadline):
             ctx.hit("choppy_connections")
         patron = pair.patron()
         earlier = []
+        prev_path = None
         for k in range(nreq):
             state["stage"] = "build"
             rid = "r%d-%d-%d" % (ctx.job["index"] if ctx.job else 0, idx, k)
@@ -184,17 +189,28 @@ def one_case(ctx, rng, idx, mem, deadline):
                 spec = hg.gen_appspec(rng, rid, shapes=("empty", "empty-cl0"),
                                       statuses=[s for s in sorted(hg.REASONS)] if req["method"] == "HEAD" else [204, 304])
                 ctx.hit("bodiless_response_in_sequence")
+            elif after_reconnect and rng.random() < 0.8:
+                # a body produced piece by piece over several server passes: it reaches the client in several receives
+                spec = hg.gen_appspec(rng, rid, shapes=("stream-gaps", "stream", "stream-gaps"), statuses=[200, 201, 404])
+                ctx.hit("streamed_response_after_reconnect")
             else:
                 spec = hg.gen_appspec(rng, rid, statuses=[s for s in sorted(hg.REASONS)])
             cur["spec"] = spec
             req["port"] = pair.port
             req["host"] = pair.host
-            if r2.random() < 0.25 and not any(a.lower() == "connection" for a, v in req["headers"]):
+            if (r2.random() < 0.25 or (reconnect and k == 0)) and not any(a.lower() == "connection" for a, v in req["headers"]):
                 req["headers"] = list(req["headers"]) + [("Connection", "close")]
                 ctx.hit("requests_asking_to_close")
                 if choppy:
                     ctx.hit("requests_asking_to_close_on_choppy_connections")
-            kw = {"method": req["method"], "path": req["path"], "qargs": _od(req["qargs"]), "headers": _od(req["headers"])}
+            if k and prev_path is not None and r2.random() < 0.3:
+                # a later request that names no path: the patron asks for the path of its previous request again
+                req["path"] = prev_path
+                kw = {"method": req["method"], "qargs": _od(req["qargs"]), "headers": _od(req["headers"])}
+                ctx.hit("later_request_without_a_path")
+            else:
+                kw = {"method": req["method"], "path": req["path"], "qargs": _od(req["qargs"]), "headers": _od(req["headers"])}
+            prev_path = req["path"]
             if req["kind"] == "body":
                 kw["body"] = req["body"]
             elif req["kind"] == "json":
@@ -250,7 +266,20 @@ def one_case(ctx, rng, idx, mem, deadline):
             if not got or len(seen) != k + 1 or conn.cutoff or not conn.connected or not conn.cs:
                 break            # the connection did not persist (close-delimited response ...): the sequence ends here
             if any(a.lower() == "connection" and v.lower() == "close" for a, v in req["headers"]):
-                break            # the request asked for the connection to be closed after its response
+                # the request asked for the connection to be closed after its response: on real sockets the same patron
+                # is connected again and goes on (what the previous connection's end left in the client is history)
+                if mem or k + 1 >= nreq:
+                    break
+                pair.pump(lambda: conn.cutoff or time.time() > deadline, cap=60)
+                if not conn.cutoff:
+                    break
+                patron.serviceAll()
+                conn.reopen()
+                conn.cs.setsockopt(socket.IPPROTO_TCP, socket.TCP_NODELAY, 1)
+                if not pair.pump(lambda: conn.connected or time.time() > deadline, cap=60):
+                    break
+                ctx.hit("patron_reconnected_after_close")
+                after_reconnect = True
     except Exception as ex:
         if isinstance(ex, (OSError, RuntimeError)) and state["stage"] == "build" and pair is None:
             raise                                   # the harness could not open its own sockets
@@ -280,6 +309,8 @@ def worker(ctx, job):
             ctx.inconclusive_case("wall-clock watchdog")
             break
         try:
+            if i % job["loop_every"] == 5 and i // job["loop_every"] % 2 == 0:
+                one_case(ctx, rng, i, mem=False, deadline=deadline, reconnect=True)
             one_case(ctx, rng, i, mem=(i % job["loop_every"] != 0), deadline=deadline)
         except (OSError, RuntimeError) as ex:      # the harness's own real sockets, never a verdict
             errs.append("%s: %s" % (type(ex).__name__, ex))
@@ -300,5 +331,8 @@ def run(ctx):
     ctx.floor("later_request_other_payload_kind", total // 12)
     ctx.floor("bodiless_response_in_sequence", total // 40)
     ctx.floor("requests_asking_to_close_on_choppy_connections", total // 60)
+    ctx.floor("later_request_without_a_path", total // 40)
+    ctx.floor("patron_reconnected_after_close", total // 100)
+    ctx.floor("streamed_response_after_reconnect", total // 150)
     for m in hg.METHODS:
         ctx.floor("method:" + m, total // 60)
